@@ -60,6 +60,8 @@ fn probes(spec: &CmdSpec) -> Vec<Vec<Vec<u8>>> {
             vec!["help", "help"],
             vec!["help", "help", "help"],
             vec!["help", "sub", "deep"],
+            vec!["sub", "deep", "-V"],
+            vec!["sub", "deep", "--help"],
         ]
     };
     v.into_iter().map(|l| l.into_iter().map(|s| s.as_bytes().to_vec()).collect()).collect()
